@@ -101,6 +101,119 @@ fn scan(s: &mut Suite, sec: &Secret, what: &str, output: &[u8]) {
 	}
 }
 
+/// the process the parent watches: every key document of the file through every loading entry
+/// point of the build, each loaded key used and rendered; it writes nothing itself
+pub fn child(path: &str) {
+	use rustls_pki_types::{PrivateKeyDer, PrivatePkcs8KeyDer};
+	let text = std::fs::read_to_string(path).unwrap_or_default();
+	let quiet = |f: &mut dyn FnMut()| {
+		let _ = std::panic::catch_unwind(std::panic::AssertUnwindSafe(|| f()));
+	};
+	for line in text.lines() {
+		let mut it = line.split(' ');
+		let (Some(fmt), Some(hx)) = (it.next(), it.next()) else { continue };
+		let Some(der) = unhex(hx) else { continue };
+		let label = match fmt { "sec1" => "EC PRIVATE KEY", "pkcs1" => "RSA PRIVATE KEY", _ => "PRIVATE KEY" };
+		let pem_text = pem::encode_config(&pem::Pem::new(label, der.clone()), pem::EncodeConfig::new().set_line_ending(pem::LineEnding::LF));
+		let mut loaded: Vec<KeyPair> = Vec::new();
+		let mut keep = |r: Result<KeyPair, Error>| {
+			match r {
+				Ok(k) => loaded.push(k),
+				Err(e) => {
+					let _ = format!("{} {:?}", e, e);
+				},
+			}
+		};
+		quiet(&mut || keep(KeyPair::try_from(der.as_slice())));
+		quiet(&mut || keep(KeyPair::try_from(der.clone())));
+		quiet(&mut || keep(KeyPair::from_pem(&pem_text)));
+		quiet(&mut || keep(KeyPair::try_from(&PrivatePkcs8KeyDer::from(der.clone()))));
+		if let Ok(pk) = PrivateKeyDer::try_from(der.clone()) {
+			quiet(&mut || keep(KeyPair::try_from(&pk)));
+			for alg in keys::build_algs() {
+				quiet(&mut || keep(KeyPair::from_der_and_sign_algo(&pk, alg)));
+			}
+		}
+		for alg in keys::build_algs() {
+			quiet(&mut || keep(KeyPair::from_pem_and_sign_algo(&pem_text, alg)));
+			quiet(&mut || keep(KeyPair::from_pkcs8_der_and_sign_algo(&PrivatePkcs8KeyDer::from(der.clone()), alg)));
+			quiet(&mut || keep(KeyPair::from_pkcs8_pem_and_sign_algo(&pem_text, alg)));
+		}
+		for k in &loaded {
+			quiet(&mut || {
+				let _ = format!("{:?} {:#?}", k, k);
+				let mut p = PCert::default_like();
+				p.ca = Ca::Ca(None);
+				if let Some(rp) = p.real() {
+					if let Ok(c) = rp.clone().self_signed(k) {
+						let _ = format!("{:?}", c);
+						let _ = c.pem();
+					}
+					let _ = rp.serialize_request(k).map(|r| r.pem());
+				}
+				let _ = k.public_key_pem();
+			});
+		}
+	}
+}
+
+/// what a process that loads and uses keys writes to its standard streams on its own account:
+/// nothing that contains them
+fn watch_child(s: &mut Suite, secs: &[Secret]) {
+	let Ok(exe) = std::env::current_exe() else { return };
+	let path = format!("/verif/.cache/c19_child_{}.txt", std::process::id());
+	let mut lines: Vec<String> = Vec::new();
+	for sec in secs {
+		lines.push(format!("pkcs8 {}", hex(&sec.pkcs8)));
+		if let Ok(pk) = PKey::private_key_from_pkcs8(&sec.pkcs8) {
+			if let Ok(ec) = pk.ec_key() {
+				if let Ok(d) = ec.private_key_to_der() {
+					lines.push(format!("sec1 {}", hex(&d)));
+				}
+			}
+			if let Ok(rsa) = pk.rsa() {
+				if let Ok(d) = rsa.private_key_to_der() {
+					lines.push(format!("pkcs1 {}", hex(&d)));
+				}
+			}
+		}
+	}
+	if std::fs::write(&path, lines.join("\n")).is_err() {
+		return;
+	}
+	let out = std::process::Command::new(exe).arg("C19-child").arg(&path).output();
+	let _ = std::fs::remove_file(&path);
+	let Ok(out) = out else {
+		s.rep.count("child_process_unavailable");
+		return;
+	};
+	s.rep.count(if out.status.success() { "child_process_ran" } else { "child_process_failed" });
+	for (stream, bytes) in [("stdout", &out.stdout), ("stderr", &out.stderr)] {
+		s.rep.count(&format!("child_{}_octets:{}", stream, if bytes.is_empty() { "0" } else { "some" }));
+		// as written, and with every run of white space drawn together (a pretty-printed list has
+		// one element per line)
+		let mut squeezed: Vec<u8> = Vec::with_capacity(bytes.len());
+		let mut in_ws = false;
+		for &b in bytes.iter() {
+			if b.is_ascii_whitespace() {
+				if !in_ws {
+					squeezed.push(b' ');
+				}
+				in_ws = true;
+			} else {
+				squeezed.push(b);
+				in_ws = false;
+			}
+		}
+		for sec in secs {
+			s.rep.case(&format!("child process {} {}", stream, sec.name), true);
+			scan(s, sec, &format!("process-{}", stream), bytes);
+			scan(s, sec, &format!("process-{}", stream), &squeezed);
+		}
+	}
+	s.rep.exhaustive.push("a child process that loads every key document (PKCS#8, SEC1, PKCS#1 as DER and PEM) through every loading entry point x every algorithm of the build, uses and renders each loaded key: its standard output and standard error searched for every private component".into());
+}
+
 pub fn run(ctx: &mut Ctx) -> Report {
 	let rule = "for every key algorithm of the build: a key generated by OpenSSL (so that the private scalar / seed / RSA d,p,q,dP,dQ,qInv are known), loaded into rcgen; every public output (certificates, CSRs, CRLs in DER and PEM, exported public keys, Debug of the key pair, of certificates and of parameter values) and the Display/Debug text of every error reachable with the key (failed loads under wrong algorithms, failed parses of texts containing the key) is searched for the secret in raw, hex, HEX, colon-hex, decimal-list and base64 (3 alignments) form, 16-byte windows at start/middle/end; evaluations counts scanned outputs; non-trivial = one (algorithm, output kind)";
 	let mut s = Suite::new(ctx, "C19", rule);
@@ -533,6 +646,11 @@ pub fn run(ctx: &mut Ctx) -> Report {
 			}
 		}
 		s.rep.exhaustive.push("error texts: Display of every Error variant of the build x 6 payloads (9 lengths for the octet-length variant) against the model; the two quoting PEM parser errors provoked through from_pem".into());
+	}
+	{
+		let all = secrets(&s.ctx.rsa_fixture.clone());
+		let mine: Vec<Secret> = all.into_iter().filter(|x| build_names.contains(&x.name)).collect();
+		watch_child(&mut s, &mine);
 	}
 	s.rep
 }
